@@ -12,9 +12,9 @@ CONSTANT Emit
 \* empty; ASCII with ( ) \ CR; Latin-1; BMP whose UTF-16 bytes are 28 5C / 0D 0A; astral + ASCII
 TitleClasses == << <<>>, <<65, 40, 92, 41, 41, 13, 98>>, <<233, 116, 233>>, <<20013, 10332, 3338>>, <<128512, 97, 66560>> >>
 
-Built == pc \in {"link", "toc", "save", "done"}
+Built == pc \in {"post", "toc", "save", "done"}
 
-Og == ImplOg(doc, Base(np), PageIds(np))
+Og == ImplOg(doc, Base(np), PageIds(np), doc.later)
 
 \* the pending forest is the declared one
 RefinesForest ==
@@ -26,7 +26,10 @@ RefinesAdjust == (pc = "build" /\ adjusted) => \A k \in 1..Len(adds) : bm.tbl[k]
 
 Pages == IF adjusted THEN AdjPage(adds) ELSE [k \in 1..Len(adds) |-> adds[k].page]
 
-RefinesFresh   == Built => Identified(adds, Og) /\ Fresh(adds, Og) /\ doc.maxid = Max(NewIds(adds, Og))
+RefinesFresh   == Built => Identified(adds, Og) /\ Fresh(adds, Og)
+                           /\ doc.maxid = Max(NewIds(adds, Og) \cup SeqSet(doc.later))
+\* action form of "the ids stay reserved": an allocation never lands on an object of the outline
+Reserved       == [][pc = "post" => \A i \in DOMAIN doc.objs : i \in DOMAIN doc'.objs /\ doc'.objs[i] = doc.objs[i]]_vars
 RefinesLinks   == Built => Links(adds, Og)
 RefinesCarries == Built => Carries(adds, Og, Pages, PageIds(np))
 RefinesToc     == \A i \in 1..Len(tocs) : TocIs(tocs[i], ReadBackWith(adds, Pages))
@@ -34,10 +37,10 @@ Verdict        == pc = "done" => Judge(adds, np, PageIds(np), adjusted, Og, tocs
 
 EmitInv ==
     (Emit /\ pc = "done") =>
-        PrintT(<<"REPLAY", ToJson([np |-> np, adds |-> adds, adjust |-> adjusted,
+        PrintT(<<"REPLAY", ToJson([np |-> np, adds |-> adds, adjust |-> adjusted, post |-> doc.post, link |-> doc.link,
                                    exp |-> [toc |-> ReadBackWith(adds, Pages),
                                             pages |-> Pages,
                                             pre |-> PreOrder(adds),
-                                            ids |-> [root |-> doc.root - Base(np), max |-> doc.maxid - Base(np),
+                                            ids |-> [root |-> doc.root - Base(np), max |-> Og.items[Len(Og.items)].aid - Base(np),
                                                      items |-> [j \in 1..Len(Og.items) |-> Og.items[j].id - Base(np)]]]])>>)
 =============================================================================
